@@ -69,7 +69,30 @@ fn finish(run: Run, all: Acc, extra: serde_json::Value) -> i32 {
     run.finish(&all, true, extra, &["pair spaces over the alphabets of DESIGN.md section 3; every negative case has its positive control in the same unit"])
 }
 
+fn reuse_dim(prop: &str) -> crate::props::reuse::Dim {
+    match prop {
+        "C04" => crate::props::reuse::Dim::Key,
+        "C05" => crate::props::reuse::Dim::Footer,
+        _ => crate::props::reuse::Dim::Assertion,
+    }
+}
+
+/// object-reuse histories (second build, reconfigured / re-keyed parser) for the binding this property owns
+fn reuse_pass(prop: &str, protos: &[Proto]) -> Acc {
+    let accs = par_units(protos, |p| {
+        let mut acc = Acc::default();
+        let obs = crate::props::reuse::all_for(*p);
+        crate::props::reuse::record(prop, *p, &obs, &[reuse_dim(prop)], &mut acc);
+        acc.choice_points += obs.len() as u64;
+        acc
+    });
+    Acc::merge_all(accs)
+}
+
 pub fn replay(prop: &'static str, case: &serde_json::Value) -> i32 {
+    if case.get("reuse_case").is_some() {
+        return crate::props::reuse::replay(prop, case, &[reuse_dim(prop)]);
+    }
     let (Ok(ic), Ok(pres)) = (serde_json::from_value::<IssueCase>(case["issue"].clone()), serde_json::from_value::<Presentation>(case["presentation"].clone())) else {
         crate::report::machinery_error("replay file lacks issue / presentation");
     };
@@ -172,10 +195,12 @@ pub fn run_c04(tier: &str) -> i32 {
         }
         acc
     });
+    let mut merged = Acc::merge_all(accs);
+    merged.merge(reuse_pass("C04", &Proto::ALL));
     finish(
         run,
-        Acc::merge_all(accs),
-        json!({"space": "protocol x layer x ordered pairs of pool keys x message x footer/assertion; all single-bit neighbours of the accepting key (local: both directions); P-384 other-parity point",
+        merged,
+        json!({"space": "protocol x layer x ordered pairs of pool keys x message x footer/assertion; all single-bit neighbours of the accepting key (local: both directions); P-384 other-parity point; one parser object parsing the same token under the right and a wrong key in both orders",
                "distinct_rule": "distinct (token, presented key, footer, assertion, layer) presentations", "caps_hit": []}),
     )
 }
@@ -277,10 +302,12 @@ pub fn run_c05(tier: &str) -> i32 {
         acc.choice_points += pts;
         acc
     });
+    let mut merged = Acc::merge_all(accs);
+    merged.merge(reuse_pass("C05", &Proto::ALL));
     finish(
         run,
-        Acc::merge_all(accs),
-        json!({"space": "protocol x layer x message x all ordered pairs (F, F') of the 12-element footer domain (accept iff F' == F, none == \"\"); footer-segment encoding; every single-character edit / deletion / removal / replacement / addition of the footer segment",
+        merged,
+        json!({"space": "protocol x layer x message x all ordered pairs (F, F') of the 12-element footer domain (accept iff F' == F, none == \"\"); footer-segment encoding; every single-character edit / deletion / removal / replacement / addition of the footer segment; one builder / one parser reconfigured between uses (footer F1 -> F2 -> empty)",
                "distinct_rule": "distinct presentations", "caps_hit": []}),
     )
 }
@@ -368,10 +395,12 @@ pub fn run_c06(tier: &str) -> i32 {
         }
         acc
     });
+    let mut merged = Acc::merge_all(accs);
+    merged.merge(reuse_pass("C06", &protos));
     finish(
         run,
-        Acc::merge_all(accs),
-        json!({"space": "v3/v4 x purpose x layer x message x footer x all ordered pairs (A, A') of the 9-element assertion domain (accept iff A' == A, none == \"\"); (footer, assertion) splits of one concatenation; non-storage (length, byte occurrence)",
+        merged,
+        json!({"space": "v3/v4 x purpose x layer x message x footer x all ordered pairs (A, A') of the 9-element assertion domain (accept iff A' == A, none == \"\"); (footer, assertion) splits of one concatenation; non-storage (length, byte occurrence); one builder / one parser reconfigured between uses (assertion A1 -> A2 -> empty, second build from the same builder)",
                "distinct_rule": "distinct presentations", "caps_hit": []}),
     )
 }
@@ -444,6 +473,19 @@ pub fn run_c07(tier: &str) -> i32 {
                     if acc.samples.len() < 2 && tag == "header-rewritten" {
                         acc.sample(json!({"issued_by": x.name(), "presented_to": y.name(), "layer": Layer::ALL[li].name(), "key_choice": what, "token": text}));
                     }
+                }
+            }
+            // the other direction of the first sentence: a token that is authentic for Y but whose header
+            // names X must be refused by Y's entry points
+            {
+                let ky = domains::key_pool(*y)[if y.is_local() { 0 } else { 2.min(domains::key_pool(*y).len() - 1) }].clone();
+                let seed_y = seed_for(*y);
+                let case_y = IssueCase::new(*y, Layer::Core, &ky, seed_y.as_deref(), &msgs[mi], &footers[fi], &None);
+                if let Some(ty) = issue_with_control(&case_y, &mut acc) {
+                    let named_x = format!("{}{}", x.header(), &ty[y.header().len()..]);
+                    let mut pres = Presentation::of(&case_y, &named_x);
+                    pres.layer = Layer::ALL[li];
+                    check("C07", "authentic-for-Y-but-header-names-X", &case_y, &ty, &pres, None, &mut acc);
                 }
             }
             // an attacker-made local token under the public key bytes, presented to the public verifier
